@@ -102,7 +102,8 @@ struct Walker {
     feature_count: Option<usize>,
     errors: BTreeSet<String>,
     name_refs: BTreeSet<(String, u16)>,
-    var_idx: Vec<(u16, u16)>,
+    var_idx: Vec<(String, u16, u16)>,
+    cond_axes: Vec<(String, u16)>,
     fields: usize,
     pending_outer: Option<u16>,
 }
@@ -185,10 +186,11 @@ impl Walker {
             }
             FieldType::U16(x) => {
                 self.index(name, x);
+                if ty == "ConditionFormat1" && name == "axis_index" { self.cond_axes.push((self.table.clone(), x)); }
                 if ty == "VariationIndex" {
                     if name == "delta_set_outer_index" { self.pending_outer = Some(x); }
                     if name == "delta_set_inner_index" {
-                        if let Some(o) = self.pending_outer.take() { self.var_idx.push((o, x)); }
+                        if let Some(o) = self.pending_outer.take() { self.var_idx.push((self.table.clone(), o, x)); }
                     }
                 }
             }
@@ -215,7 +217,7 @@ impl Walker {
 
 /// GPOS SinglePos / PairPos value records: every device / variation-index offset resolves (typed API, with
 /// the base the spec prescribes); collects the variation indices.
-fn gpos_value_records(font: &FontRef, errors: &mut Vec<String>, var_idx: &mut Vec<(u16, u16)>) -> Result<(), ReadError> {
+fn gpos_value_records(font: &FontRef, errors: &mut Vec<String>, var_idx: &mut Vec<(String, u16, u16)>) -> Result<(), ReadError> {
     use read_fonts::tables::gpos::{PairPos, PositionSubtables, SinglePos, ValueRecord};
     use read_fonts::tables::layout::DeviceOrVariationIndex;
     use read_fonts::FontData;
@@ -225,7 +227,7 @@ fn gpos_value_records(font: &FontRef, errors: &mut Vec<String>, var_idx: &mut Ve
             match dev {
                 None => {}
                 Some(Err(e)) => errors.push(format!("GPOS:value-record-device:{e}")),
-                Some(Ok(DeviceOrVariationIndex::VariationIndex(vi))) => var_idx.push((vi.delta_set_outer_index(), vi.delta_set_inner_index())),
+                Some(Ok(DeviceOrVariationIndex::VariationIndex(vi))) => var_idx.push(("GPOS".to_string(), vi.delta_set_outer_index(), vi.delta_set_inner_index())),
                 Some(Ok(_)) => {}
             }
         }
@@ -303,7 +305,7 @@ pub fn independent_read(bytes: &[u8]) -> ReaderReport {
     let num_glyphs = font.maxp().map(|m| m.num_glyphs() as u32).unwrap_or(0);
     let mut w = Walker {
         table: String::new(), num_glyphs, lookup_count: None, feature_count: None, errors: BTreeSet::new(),
-        name_refs: BTreeSet::new(), var_idx: vec![], fields: 0, pending_outer: None,
+        name_refs: BTreeSet::new(), var_idx: vec![], cond_axes: vec![], fields: 0, pending_outer: None,
     };
 
     macro_rules! walk {
@@ -477,19 +479,63 @@ pub fn independent_read(bytes: &[u8]) -> ReaderReport {
             if *id != 0xFFFF && !ids.contains(&(*id as u64)) { errors.push(format!("name-id-missing:{whence}:{id}")); }
         }
         gpos_value_records(&font, &mut errors, &mut w.var_idx)?;
-        // GPOS/GDEF variation indices inside the GDEF store
-        if !w.var_idx.is_empty() {
-            match font.gdef().ok().and_then(|g| g.item_var_store()) {
+        // variation stores of layout / colour tables: axis count = fvar's
+        let fvar_axes = font.fvar().ok().map(|f| f.axis_count() as u64);
+        let mut store_axes = |info: &mut Vec<(String, Vec<u64>)>, errors: &mut Vec<String>, tag: &str,
+                              ivs: Option<Result<read_fonts::tables::variations::ItemVariationStore, ReadError>>| -> Result<(), ReadError> {
+            if let Some(ivs) = ivs {
+                let ivs = ivs?;
+                ivs_info(info, tag, &ivs)?;
+                let rl = ivs.variation_region_list()?;
+                if Some(rl.axis_count() as u64) != fvar_axes { errors.push(format!("{tag}:axis-count")); }
+                for r in rl.variation_regions().iter() {
+                    if r?.region_axes().len() as u64 != rl.axis_count() as u64 { errors.push(format!("{tag}:region-axes")); }
+                }
+                for d in ivs.item_variation_data().iter().flatten() {
+                    for ri in d?.region_indexes() { if ri.get() >= rl.region_count() { errors.push(format!("{tag}:region-index")); } }
+                }
+            }
+            Ok(())
+        };
+        if let Ok(gdef) = font.gdef() { store_axes(&mut info, &mut errors, "GDEF", gdef.item_var_store())?; }
+        if let Ok(base) = font.base() { store_axes(&mut info, &mut errors, "BASE", base.item_var_store())?; }
+        if let Ok(colr) = font.colr() { store_axes(&mut info, &mut errors, "COLR", colr.item_variation_store())?; }
+        // FeatureVariations: condition axis indices index fvar
+        let fv_records = [
+            ("GSUB", font.gsub().ok().and_then(|g| g.feature_variations()).map(|fv| fv.map(|fv| fv.feature_variation_record_count()))),
+            ("GPOS", font.gpos().ok().and_then(|g| g.feature_variations()).map(|fv| fv.map(|fv| fv.feature_variation_record_count()))),
+        ];
+        for (tag, n) in fv_records {
+            if let Some(n) = n {
+                let axes: Vec<u64> = w.cond_axes.iter().filter(|(t, _)| t == tag).map(|(_, a)| *a as u64).collect();
+                if axes.iter().any(|a| *a >= fvar_axes.unwrap_or(0)) { errors.push(format!("{tag}:condition-axis")); }
+                note(&mut info, &format!("{tag}.condAxes"), axes);
+                note(&mut info, &format!("{tag}.featureVariationRecords"), [n? as u64]);
+            }
+        }
+        // GPOS/GDEF variation indices inside the GDEF store (BASE: inside BASE's own store)
+        let check_idx = |errors: &mut Vec<String>, what: &str, idx: &[(u16, u16)],
+                         ivs: Option<Result<read_fonts::tables::variations::ItemVariationStore, ReadError>>| {
+            if idx.is_empty() { return; }
+            match ivs {
                 Some(Ok(ivs)) => {
                     let data = ivs.item_variation_data();
-                    for (o, i) in &w.var_idx {
+                    for (o, i) in idx {
                         if *o == 0xFFFF && *i == 0xFFFF { continue; }
-                        let ok = match data.get(*o as usize) { Some(Ok(d)) => (*i as u16) < d.item_count(), _ => false };
-                        if !ok { errors.push(format!("variation-index:{o}:{i}")); break; }
+                        let ok = match data.get(*o as usize) { Some(Ok(d)) => *i < d.item_count(), _ => false };
+                        if !ok { errors.push(format!("variation-index:{what}:{o}:{i}")); break; }
                     }
                 }
-                _ => errors.push("variation-index:no-GDEF-store".into()),
+                _ => errors.push(format!("variation-index:no-{what}-store")),
             }
+        };
+        let layout_idx: Vec<(u16, u16)> = w.var_idx.iter().filter(|(t, _, _)| t == "GPOS" || t == "GDEF").map(|(_, o, i)| (*o, *i)).collect();
+        let base_idx: Vec<(u16, u16)> = w.var_idx.iter().filter(|(t, _, _)| t == "BASE").map(|(_, o, i)| (*o, *i)).collect();
+        check_idx(&mut errors, "GDEF", &layout_idx, font.gdef().ok().and_then(|g| g.item_var_store()));
+        check_idx(&mut errors, "BASE", &base_idx, font.base().ok().and_then(|b| b.item_var_store()));
+        if font.gpos().is_ok() || font.gdef().is_ok() {
+            let set: BTreeSet<u64> = layout_idx.iter().map(|(o, i)| *o as u64 * 65536 + *i as u64).collect();
+            note(&mut info, "varIdx", set);
         }
         Ok(())
     };
@@ -678,6 +724,76 @@ fn merge_field(captured: bool) -> S {
     S::kv("merge", [S::kv("skip", skip), S::kv("nocontent", nocontent), S::kv("fea", extra)])
 }
 
+fn fea_num(v: f64) -> String {
+    if v == v.trunc() { format!("{}", v as i64) } else { format!("{v}") }
+}
+
+/// C05 additions to a generated design (additive post-processing of `e2e::design::Design`):
+///  * a *point axis* (minimum == default == maximum; fontc drops it from fvar), placed before the variable
+///    axes most of the time, so designspace axis indices and fvar axis indices differ;
+///  * hand-written *variable feature code* on real axes: a `conditionset` + `variation` block (GSUB
+///    FeatureVariations) and variable scalars in pair / single positioning (GPOS VariationIndex -> GDEF store).
+/// Returns (index of the point axis, variable FEA written).
+pub fn decorate_design(rng: &mut Rng, d: &mut crate::e2e::design::Design, point: bool, varfea: bool) -> (Option<usize>, bool) {
+    use crate::e2e::design::AxisDef;
+    let mut point_at = None;
+    if point {
+        let at = if rng.chance(3, 4) { 0 } else { rng.below(d.axes.len() + 1) };
+        let (tag, name, v) = *rng.pick(&[("ital", "Italic", 0.0), ("slnt", "Slant", -8.0), ("opsz", "Optical Size", 12.0)]);
+        let (tag, name) = if d.axes.iter().any(|a| a.tag == tag) { ("GRAD", "Grade") } else { (tag, name) };
+        d.axes.insert(at, AxisDef { tag: tag.into(), name: name.into(), min: v, default: v, max: v, map: vec![] });
+        for m in d.masters.iter_mut() { m.loc.insert(at, v); }
+        for i in d.instances.iter_mut() { i.loc.insert(at, v); }
+        for r in d.rules.iter_mut() {
+            for cs in r.condsets.iter_mut() { for c in cs.iter_mut() { if c.0 >= at { c.0 += 1; } } }
+        }
+        point_at = Some(at);
+    }
+    let real: Vec<AxisDef> = d.axes.iter().filter(|a| a.min < a.max && a.map.is_empty()).cloned().collect();
+    let names = d.glyph_names();
+    let mut wrote = false;
+    if varfea && !real.is_empty() && names.contains(&"a".to_string()) && names.contains(&"b".to_string()) {
+        let range = |a: &AxisDef| -> (f64, f64) {
+            if a.max > a.default { (((a.default + a.max) / 2.0).round(), a.max) } else { (a.min, ((a.min + a.default) / 2.0).round()) }
+        };
+        let scalar = |rng: &mut Rng, axes: &[AxisDef]| -> String {
+            // value at the default and at every differing extreme of the first axis; corner on the second
+            let a = &axes[0];
+            let mut locs = vec![format!("{}={}", a.tag, fea_num(a.default))];
+            if a.min < a.default { locs.push(format!("{}={}", a.tag, fea_num(a.min))); }
+            if a.max > a.default { locs.push(format!("{}={}", a.tag, fea_num(a.max))); }
+            if axes.len() > 1 && rng.chance(1, 2) {
+                let b = &axes[1];
+                let bv = if b.max > b.default { b.max } else { b.min };
+                locs.push(format!("{}={},{}={}", a.tag, fea_num(a.default), b.tag, fea_num(bv)));
+            }
+            let vals: Vec<String> = locs.iter().map(|l| format!("{l}:{}", rng.range(-60, 60))).collect();
+            format!("({})", vals.join(" "))
+        };
+        let mut fea = String::from("languagesystem DFLT dflt;\nlookup vswap { sub a by b; } vswap;\n");
+        let (lo, hi) = range(&real[0]);
+        fea.push_str(&format!("conditionset heavy {{ {} {} {};", real[0].tag, fea_num(lo), fea_num(hi)));
+        if real.len() > 1 && rng.chance(1, 2) {
+            let (lo, hi) = range(&real[1]);
+            fea.push_str(&format!(" {} {} {};", real[1].tag, fea_num(lo), fea_num(hi)));
+        }
+        fea.push_str(" } heavy;\nvariation rvrn heavy { lookup vswap; } rvrn;\n");
+        if real.len() > 1 && rng.chance(1, 2) {
+            let (lo, hi) = range(&real[1]);
+            fea.push_str(&format!("conditionset wide {{ {} {} {}; }} wide;\nvariation rvrn wide {{ lookup vswap; }} rvrn;\n", real[1].tag, fea_num(lo), fea_num(hi)));
+        }
+        let has_kerning = d.masters.iter().any(|m| !m.kerning.is_empty());
+        let feat = if has_kerning { "dist" } else { "kern" };
+        fea.push_str(&format!("feature {feat} {{\n  pos a b {};\n", scalar(rng, &real)));
+        if rng.chance(2, 3) { fea.push_str(&format!("  pos b <0 0 {} 0>;\n", scalar(rng, &real))); }
+        fea.push_str(&format!("}} {feat};\n"));
+        let fea = fea.replace("\\n", "\n");
+        d.features = Some(match d.features.take() { Some(old) => format!("{old}\n{fea}"), None => fea });
+        wrote = true;
+    }
+    (point_at, wrote)
+}
+
 pub fn run_font(args: &Args) {
     let seed = args.seed;
     let captured = init_capture();
@@ -708,7 +824,12 @@ pub fn run_font(args: &Args) {
             let mut go = design::GenOpts::default();
             go.vertical = rng.chance(1, 3);
             go.metrics_vary = rng.chance(1, 2);
-            let d = design::gen_design(&mut rng, &go);
+            let mut d = design::gen_design(&mut rng, &go);
+            let (want_point, want_fea) = (rng.chance(1, 2), rng.chance(2, 3));
+            let (point_at, varfea) = decorate_design(&mut rng, &mut d, want_point, want_fea);
+            f.push(S::k1("pointaxis", S::opt(point_at.map(S::usize))));
+            f.push(S::k1("varfea", S::bool(varfea)));
+            f.push(S::k1("axes", S::list(d.axes.iter().map(|a| S::str(&a.tag)))));
             let tmp = crate::e2e::build::tmpdir("c05font");
             let ds = write::write_design(tmp.path(), &d);
             f.push(S::k1("source", S::str("generated")));
